@@ -25,6 +25,7 @@
    No proofs in this file. *)
 From PV Require Import Base.MachineInt Model.Znx Model.Limbs Model.LimbsBig Model.Flat Model.Ring Model.DftAbs
   Model.C05Cnv Model.C05Spec Model.C05Core Model.C05Run.
+From PV Require Model.Gadget Model.C05Relin.
 Open Scope Z_scope.
 
 Definition ob (b : bool) : Z := if b then 1 else 0.
@@ -141,7 +142,7 @@ Definition relin_env (n rank : nat) (PP R RR kb dsize dnum k_tsk : Z) : Z :=
   let minprec := Z.min (Z.min RR R) (tsk_size * kb) in
   gadget + drop + 4 * (1 + zn rank * nn + pairs * nn * nn) * 2 ^ (PP - minprec).
 
-(* which of the checks fail, as a bit set: 1 = L1, 2 = L2a, 4 = L2b, 8 = L2c, 16 = decrypt of relin, 32 = tensor flag, 64 = relin flag *)
+(* which of the checks fail, as a bit set: 1 = L1, 2 = L2a, 4 = L2b, 8 = L2c, 16 = decrypt of relin, 32 = tensor flag, 64 = relin flag, 128 = L1 of the relinearisation *)
 Definition l2_tensor_fail (ps : list Z) (vs outs : list (list Z)) : Z :=
   let n := np ps 1 in let fft := is_fft ps in
   let rank := np ps 2 in let cols := S rank in let tcols := (cols * (cols + 1) / 2)%nat in
@@ -169,8 +170,13 @@ Definition l2_tensor_fail (ps : list Z) (vs outs : list (list Z)) : Z :=
   let phr := phase n RR relb rl k1 in
   let l2c := tor_dist PP (pscale (2 ^ (PP - RR)) phr) (pscale (2 ^ (PP - R)) pht) <=? relin_env n rank PP R RR kb dsize dnum k_tsk in
   let l2e := tor_dist RR (pval n RR relb (colof n 1 relsz 0 (v outs 6))) phr <=? 1 in
+  (* L1 for the relinearisation: the model (Gadget.gadget_product + C05Relin) on the dumped key reproduces relin.data bit for bit *)
+  let msize := sz k_tsk kb in
+  let l1r := match C05Relin.glwe_relinearize (p ps 0) n rb kb relb rank rsz relsz (Z.to_nat dsize) (Z.to_nat dnum) msize
+                     (Gadget.cols_of_flat n tcols rsz (v outs 3)) (Gadget.pmat_of_flat n (msize * cols) (v outs 8)) with
+             | Some r => list_eqb (Gadget.flat_of_cols relsz r) (v outs 5) | None => false end in
   bits l1 1 + bits l2a 2 + bits l2b 4 + bits l2c 8 + bits l2e 16
-  + bits (nth 0 (v outs 7) 0 =? 1) 32 + bits (nth 1 (v outs 7) 0 =? 1) 64.
+  + bits (nth 0 (v outs 7) 0 =? 1) 32 + bits (nth 1 (v outs 7) 0 =? 1) 64 + bits l1r 128.
 
 Definition l2_mul_fail (code : Z) (ps : list Z) (vs outs : list (list Z)) : Z :=
   let n := np ps 1 in let fft := is_fft ps in
@@ -201,6 +207,7 @@ Definition l2_fail (code : Z) (ps : list Z) (vs outs : list (list Z)) : Z :=
 
 Definition oracle_c05 (code : Z) (ps : list Z) (vs outs : list (list Z)) : Z :=
   if code <? 5100 then oracle_hal code ps vs outs
+  else if code =? 5108 then ob (list_eqb (v outs 1) [1])   (* relinearisation on arbitrary limb data: bit-exactness is the check; phase: level 2 *)
   else if code <? 5200 then oracle_core code ps vs outs
   else if code <? 5300 then ob (l2_fail code ps vs outs =? 0)
   else if code <? 5340 then
